@@ -354,7 +354,7 @@ fn bytes_written_during(t: &Trace, op: &OpRec) -> usize {
 }
 
 pub fn run_check(ctx: &Ctx) -> i32 {
-    let cases = ctx.tier.pick(2_500, 120_000);
+    let cases = ctx.tier.pick(10_000, 300_000);
     let budget = ctx.tier.pick(40, 160);
     let agg = run_prop(ctx, "c13-input", 16, cases, strategy, |inp: &Input| {
         let o = eval(inp, budget);
